@@ -15,7 +15,7 @@ ASSUMPTIONS = [
     "the graceful wind-down of each codec (HTTP/2 GOAWAY, HTTP/1.1 flush and close, QUIC close) is the codec's graceful_shutdown: its call after the notification is a regenerated structural fact, its effect is covered for HTTP/1.1 by C08's end-of-stream cases",
 ]
 RULE = ("interleavings of up to 14 operations over up to 5 participants: register, start waiting, submit (once or twice), wind down (before or after observing), "
-        "coordinator starts the completion wait, observe; late registration after completion has returned; participants that never wait; the known hazard "
+        "coordinator starts the completion wait, observe; late registration after completion has returned; participants that never wait; real tunnel / ping / speedtest sessions as participants (completion waits for a live session, a submission winds it down); the known hazard "
         "(registration while completion is awaited under the lock, one worker thread); non-trivial = every case; distinct = distinct script")
 
 
@@ -42,6 +42,16 @@ def reference(ops):
         elif op[0] == 5:
             completing = True
             out.append([5])
+        elif op[0] == 7:
+            parts.append(dict(awaited=not completing, pending=False, waiting=False, observed=False, finished=False, session=True))
+            out.append([7, len(parts) - 1])
+        elif op[0] == 8:
+            parts[op[1]]["finished"] = True
+            out.append([8])
+        if op[0] == 3:
+            for p in parts:
+                if p.get("session"):
+                    p["finished"] = True      # a real session winds down by itself when it observes the submission
         for p in parts:
             if p["waiting"] and p["pending"] and not p["finished"]:
                 p["pending"], p["waiting"], p["observed"] = False, False, True
@@ -50,6 +60,10 @@ def reference(ops):
             out.append([6, sum(1 << i for i, p in enumerate(parts) if p["observed"]), 0, 1 if done else 0])
     done = completing and all((not p["awaited"]) or p["finished"] for p in parts)
     return out, parts, completing, done
+
+
+# real sockets / real time: a verdict must persist when the case is re-run on its own (2 of 3)
+RETRY_PREFIX = "*"
 
 
 def gen_cases(rng, ctx):
@@ -64,6 +78,11 @@ def gen_cases(rng, ctx):
     add(4, [[1], [3], [2, 0], [6], [1], [2, 1], [6], [3], [6], [5], [6], [4, 0], [4, 1], [6]], "corpus:submit-before-wait")
     add(4, [[1], [1], [3], [3], [2, 0], [6], [5], [4, 0], [6], [4, 1], [6], [1], [6]], "corpus:double-submit-late-registration")
     add(1, [[1], [2, 0], [5], [1], [3], [4, 0], [6]], "known:registration-while-completion-holds-the-lock")
+    # real sessions are participants: completion waits for a live one, a submission winds them down
+    for ch in (0, 1, 2):
+        add(4, [[7, ch], [5], [6], [8, 0], [6]], "session:completion-waits-channel%d" % ch)
+        add(4, [[7, ch], [1], [2, 1], [3], [6], [5], [6], [4, 1], [6]], "session:submit-winds-down-channel%d" % ch)
+        add(4, [[1], [7, ch], [7, (ch + 1) % 3], [5], [4, 0], [6], [8, 1], [6], [8, 2], [6]], "session:two-sessions-channel%d" % ch)
     for i in range(120 if thorough else 30):
         ops = []
         for _ in range(rng.choice([8, 11, 14])):
